@@ -19,7 +19,8 @@ DEFAULT_RULE = ("cases come from harness/src/gen.rs (one SplitMix64 stream seede
 
 PROPS = {
     "C13": {
-        "runs": [{"profile": "c13", "n_quick": 20000, "n_thorough": 400000}],
+        "runs": [{"profile": "c13", "n_quick": 20000, "n_thorough": 400000},
+                 {"profile": "climulti", "kind": "cli", "n_quick": 25, "n_thorough": 400, "nontrivial": "any"}],
         "observable": "text received by the mock AsyncDB / argv of the command given to the mock's run_command (test directory and clock canonicalised after checking their shape), verdict and error kind of records whose substitution fails; oracle on the implementation alone: one existing test directory per runner, the same for all its records, distinct between runners alive at the same time, gone after drop",
         "explanation": "texts over the documented syntax built from abstract templates: literals incl. { } : multi-byte, $NAME, ${NAME}, ${NAME:default} nested to depth 4, escapes, 10 variable names (locals, environment, unset, special, shadowed), 11 values containing $ \\ { } : ; 1/7 malformed texts (stray \\x, ${, ${}, $ at the end = the dependency's index panic, reproduced by the model); substitution switched on / off at arbitrary points; system commands (simple replacement)",
         "trusted": ["tempfile name freshness and directory removal are OS / crate behaviour: observed, not proved (partial)"],
@@ -66,6 +67,7 @@ PROPS = {
             {"profile": "updatecorner", "n_quick": 0, "n_thorough": 0, "nontrivial": "update"},
             {"profile": "update", "n_quick": 2500, "n_thorough": 60000, "nontrivial": "update"},
             {"profile": "cliupd", "kind": "cli", "n_quick": 15, "n_thorough": 300, "nontrivial": "update"},
+            {"profile": "climulti", "kind": "cli", "n_quick": 25, "n_thorough": 400, "nontrivial": "any"},
         ],
         "observable": "bytes of every file of the tree after Runner::update_test_file; oracle on the implementation alone (representable answers only): the rewritten tree parses, Runner::run_file with a fresh instance of the same scripted database returns Ok, a second update leaves every byte unchanged",
         "explanation": "random include trees with ~50% wrong expectations (see C07) + 5 corner cases at the excluded points of the theorems (values with non-ASCII edge white space, empty value, query error [retry] on an engine without column types); cases whose answers are not representable in the format (failing commands, three consecutive newlines in an error text / stdout, CR) are generated, compared with the model, and not judged by the re-run oracle",
@@ -82,7 +84,9 @@ PROPS = {
         "trusted": ["std's SipHash-1-3 (DefaultHasher) is compared with Sip.lean, not trusted", "clap option parsing, glob crate"],
     },
     "C07": {
-        "runs": [{"profile": "update", "n_quick": 2500, "n_thorough": 60000, "nontrivial": "update"}],
+        "runs": [{"profile": "update", "n_quick": 2500, "n_thorough": 60000, "nontrivial": "update"},
+                 {"profile": "cliupd", "kind": "cli", "n_quick": 15, "n_thorough": 300, "nontrivial": "update"},
+                 {"profile": "climulti", "kind": "cli", "n_quick": 25, "n_thorough": 400, "nontrivial": "any"}],
         "observable": "bytes of every file of the tree after Runner::update_test_file (real files, include trees), database call trace; oracle on the implementation alone: parse(before) vs parse(after) agree on every field but the expectation",
         "explanation": "random include trees (root + 0..3 included files, depth <= 2, glob and literal includes) with records of all kinds, ~50% wrong expectations, halts, controls, guards, named connections, retry clauses, failing connections; both separators; strict and default column validator",
     },
@@ -114,7 +118,8 @@ PROPS = {
         "explanation": "random: every expectation form x answer family (exact / whitespace-relaid / value changed / line removed, added, swapped / wrong kind / wrong types) x file-level sort, result mode, threshold, strict|default column check",
     },
     "C02": {
-        "runs": [{"profile": "c02", "n_quick": 6000, "n_thorough": 120000}],
+        "runs": [{"profile": "c02", "n_quick": 6000, "n_thorough": 120000},
+                 {"profile": "climulti", "kind": "cli", "n_quick": 25, "n_thorough": 400, "nontrivial": "any"}],
         "observable": "ordered trace of (session, sql) / command / sleep events, result, failing line, kind and payload",
         "explanation": "random scripts of 1..12 records of all kinds, mostly passing, first failing record and halt at random positions, failing connections, local variables set while substitution is off",
     },
@@ -131,7 +136,8 @@ PROPS = {
         "assumptions": ["the wait after the last failed attempt is behaviour of the code that the property neither requires nor forbids; the model has it too"],
     },
     "C10": {
-        "runs": [{"profile": "c10", "n_quick": 1500, "n_thorough": 40000, "exhaustive": True, "oracle": "c10"}],
+        "runs": [{"profile": "c10", "n_quick": 1500, "n_thorough": 40000, "exhaustive": True, "oracle": "c10"},
+                 {"profile": "climulti", "kind": "cli", "n_quick": 25, "n_thorough": 400, "nontrivial": "any"}],
         "observable": "verdict (+ failure kind) of the query for the permuted answer",
         "exhaustive": True,
         "explanation": "exhaustive: all permutations of 11 base result sets of <= 5 rows x 4 query-level x 4 file-level sort modes x 2 result modes (5-row sets thinned in the quick tier); random: row and value permutations of larger sets",
